@@ -6,6 +6,7 @@ from ..case import Case
 from ..runner import Prop
 from .c01 import gen_cases
 from .. import timegen as tg
+from .. import coopgen as cg
 
 
 MULTICAST = ("flatten", "groupby", "share")
@@ -14,7 +15,7 @@ MULTICAST = ("flatten", "groupby", "share")
 class C02(Prop):
     pid = "C02"
     lean_module = "RxModel.Props.C02"
-    extra_modules = ("RxModel.Props.C02T", "RxModel.Props.C02C", "RxModel.Props.C02M")
+    extra_modules = ("RxModel.Props.C02T", "RxModel.Props.C02C", "RxModel.Props.C02M", "RxModel.Props.C02S")
     design_ref = "DESIGN.md §6 C02"
     rule = ("the C01 case population with `unsub` injected at every position of the event script, followed by "
             "the rest of the script and extra events on every hot input; plus linear chains with every scheduler-using "
@@ -22,7 +23,15 @@ class C02(Prop):
             "buffer_with_count_and_time, interval, timer) on the virtual clock, unsubscribed at a random point and "
             "then driven further (clock, timers, tasks in FIFO and arbitrary order). Compared after the cut only. Oracle on "
             "the implementation alone: every event after the cut delivers nothing. non-trivial = something was "
-            "delivered before the cut.")
+            "delivered before the cut. Suite `coop` (thread-safe flavour, two REAL OS threads scheduled at lock "
+            "granularity through hook H2, step model Conc/TimeSteps.lean): for debounce / throttle / delay / observe_on / "
+            "buffer_with_time(+count) over a hot source, after each of 8 prefixes (0-2 items, timer armed / fired / "
+            "delivered), every `par k A B` with A in {next, complete, error, poll, run}, B in {unsubscribe, next} and "
+            "A = unsubscribe, B in {next, poll, run, complete}, for EVERY preemption point k of A (B blocks while A holds "
+            "the cell it needs), followed by adv / run / emit / adv / run; plus random scripts with several `par` and "
+            "two-stage chains. Compared verbatim with the model (deliveries, R marker, executed schedule, per-thread lock "
+            "tokens) for the four modelled operators; oracle on the implementation alone: nothing is delivered after the "
+            "marker R (= unsubscribe() returned), no PANIC / DEADLOCK / HANG.")
     assumptions = ["scheduler-using operators: linear chains on the virtual clock (suite `time`), correspondence + oracle"]
     modelled_not_verified = "all Rust code"
 
@@ -73,6 +82,8 @@ class C02(Prop):
                                 pipe = ["map", "add1", pipe]
                             out.append(Case("time", fl, [("pipe", [pipe])], evs,
                                             {"kind": "time-overtake", "cut": cut}))
+        # two real threads at lock granularity (suite `coop`): the emitter / the executor against unsubscribe()
+        out += cg.cases(tier, seed)
         # merge_all / group_by / share (theorems C02M_* over their own models): the histories of the C05 / C20 /
         # C11 populations that unsubscribe somewhere; full lines compared from the first unsubscription on
         import importlib
@@ -145,6 +156,8 @@ class C02(Prop):
         return len(case.events)
 
     def compare_from(self, case):
+        if case.suite == "coop":
+            return 0 if cg.modelled(case) else len(case.events)
         return self._cut(case)
 
     def project(self, body):
@@ -152,6 +165,8 @@ class C02(Prop):
         return strip_lock(body)
 
     def oracle(self, case, lines, model_lines=None):
+        if case.suite == "coop":
+            return cg.oracle(case, lines)
         if case.suite in MULTICAST:
             return self._multicast_oracle(case, lines)
         # thread-safe form: unsubscribe() can only wait for a running task if the task body runs
@@ -172,12 +187,16 @@ class C02(Prop):
         return None
 
     def nontrivial(self, case, lines):
+        if case.suite == "coop":
+            return cg.nontrivial(case, lines)
         if case.suite in MULTICAST:
             return any(b.startswith(("o=", "d=")) and b[2:3] not in ("", " ") for b in lines.values())
         cut = self._cut(case)
         return any(not (lines.get(k, "o=") == "o=" or lines.get(k, "o=").startswith("o= ")) for k in range(cut))
 
     def shrink_candidates(self, case):
+        if case.suite == "coop":
+            return cg.shrink_candidates(case)
         if case.suite in MULTICAST:
             out = []
             for i in range(len(case.events)):
@@ -189,6 +208,8 @@ class C02(Prop):
         return [c for c in cands if any(e[0] == "unsub" for e in c.events)]
 
     def signature(self, case, failure):
+        if case.suite == "coop":
+            return cg.signature(case, failure)
         if case.suite in MULTICAST:
             return f"{failure['kind']}|{case.suite}"
         if case.suite != "time":
